@@ -16,5 +16,30 @@ impl<'a> PoseidonMsgs for ChainDigest<'a> {
 }
 pub fn chain_digest<'a>(d: &'a Felt, val: &'a [Felt]) -> (r: ChainDigest<'a>) ensures r.d == d, r.val == val { ChainDigest { d, val } }
 
+
+// ---- Vec<Felt>::sort / dedup (N3 wrappers; std semantics assumed) ---------------------------------
+pub open spec fn fv(s: Seq<Felt>) -> Seq<nat> { s.map_values(|f: Felt| f@) }
+pub open spec fn sorted_nat(s: Seq<nat>) -> bool { forall|i: int, j: int| 0 <= i <= j < s.len() ==> s[i] <= s[j] }
+pub open spec fn strictly_increasing(s: Seq<nat>) -> bool { forall|i: int, j: int| 0 <= i < j < s.len() ==> s[i] < s[j] }
+/// `Vec::dedup`: removes consecutive repeated elements, keeping the first of each run
+pub open spec fn dedup_seq(s: Seq<nat>) -> Seq<nat> decreases s.len() {
+    if s.len() <= 1 { s } else if s[0] == s[1] { dedup_seq(s.skip(1)) } else { seq![s[0]] + dedup_seq(s.skip(1)) }
+}
+pub trait VecFeltX { fn sort_x(&mut self); fn dedup_x(&mut self); }
+impl VecFeltX for Vec<Felt> {
+    /// `[T]::sort` on field elements ordered by canonical representative: result sorted, same length, same elements
+    #[verifier::external_body]
+    fn sort_x(&mut self)
+        ensures
+            sorted_nat(fv(final(self)@)),
+            final(self)@.len() == old(self)@.len(),
+            forall|x: nat| fv(final(self)@).contains(x) <==> fv(old(self)@).contains(x),
+    { unimplemented!() }
+    #[verifier::external_body]
+    fn dedup_x(&mut self)
+        ensures fv(final(self)@) == dedup_seq(fv(old(self)@)),
+    { unimplemented!() }
+}
+
 } // verus!
 } // mod hoist
